@@ -44,3 +44,16 @@ Qed.
 
 Lemma tvl_ext : forall r h h', tvl r h -> h = h' -> tvl r h'.
 Proof. intros; subst; auto. Qed.
+
+(* the two string equalities are the same function *)
+Lemma key_eqb_eq : forall a b, key_eqb a b = String.eqb a b.
+Proof.
+  induction a as [|c a IH]; destruct b as [|d b]; simpl; auto.
+  all: try (rewrite IH; destruct (Ascii.eqb c d); reflexivity).
+Qed.
+
+Lemma assoc_dict_find : forall k l, assoc k l = dict_find k l.
+Proof. induction l as [|[k' v] t IH]; simpl; auto. all: try (rewrite key_eqb_eq, IH; reflexivity). Qed.
+
+Lemma py_getitem_lit_eq : forall c k, py_getitem_lit c k = py_getitem c (PStr k).
+Proof. intros [] k; simpl; auto. all: try (rewrite assoc_dict_find; reflexivity). Qed.
